@@ -1,7 +1,7 @@
 (** C02: forward and inverse dynamics of trees are exact inverses -- theorems for EVERY tree and all per-node
     data, over real scalars, from the vector-space laws only (abstract Section, in the style of Lib/MB_Proofs.v).
     The concrete instance (SimTK's spatial algebra and ArticulatedInertia over R) is in C02_Concrete.v. *)
-From Coq Require Import List Reals Lra.
+From Coq Require Import List Reals Lra Lia.
 Import ListNotations.
 Require Import Tree MB MB_Proofs C02_Model.
 Local Open Scope R_scope.
@@ -639,6 +639,29 @@ Proof.
   unfold mulM, mulJt. rewrite tmap_tmap. reflexivity.
 Qed.
 
+(** calcTreeEquivalentMobilityForces: for all test speeds v,  v . f_equiv = sum_b < F_b - (Mk A_bias,b + b_b), (J v)_b >,
+    i.e. f_equiv = J^T (F - F_inertial): applied body forces enter exactly as J^T F *)
+Theorem equiv_weak (v : X -> list R) (t : tree X) :
+  tsum (tmap (fun r => dotU K (snd r) (v (fst (fst r)))) (equivf K A nd dy t))
+  = tsum (tmap (fun xw => dot K (equiv_force K A nd dy (fst xw)) (snd xw)) (mulJ K nd1 (fun xv => v (fst xv)) (rnea_acc K nd dy (fun _ => []) t))).
+Proof. unfold equivf, rnea_acc. symmetry. apply (mulJt_adj nd1 (fun xv : X * V => v (fst xv)) (equiv_force K A nd dy)). Qed.
+
+(** ... and it is exactly the negated zero-acceleration residual of inverse dynamics (mobility forces aside):
+    v . f_equiv + v . tau(udot = 0) = - v . f   for all v  (the velocity-dependent terms are the same in both) *)
+Theorem equiv_is_minus_bias_residual (v : X -> list R) (t : tree X) :
+  tsum (tmap (fun r => dotU K (snd r) (v (fst (fst r)))) (equivf K A nd dy t))
+  + tsum (tmap (fun r => dotU K (snd r) (v (fst (fst (fst r))))) (rnea K A nd dy (fun _ => []) t))
+  = - tsum (tmap (fun xa => dotU K (d_f (dy (fst xa))) (v (fst xa))) (rnea_acc K nd dy (fun _ => []) t)).
+Proof. rewrite equiv_weak, rnea_weak.
+  set (T := mulJ K nd1 (fun xv : X * V => v (fst xv)) (rnea_acc K nd dy (fun _ => []) t)).
+  assert (E : tsum (tmap (fun xw => dot K (equiv_force K A nd dy (fst xw)) (snd xw)) T)
+            = - tsum (tmap (fun xw => dot K (rnea_force K A nd dy (fst xw)) (snd xw)) T)).
+  { rewrite (tmap_ext (fun xw : (X * V) * V => dot K (equiv_force K A nd dy (fst xw)) (snd xw))
+                      (fun xw => (-1) * dot K (rnea_force K A nd dy (fst xw)) (snd xw))).
+    - rewrite tsum_scale. lra.
+    - intros [xa w]. unfold equiv_force, rnea_force. cbn [fst snd]. rewrite !dot_vsub_l. lra. }
+  rewrite E. lra. Qed.
+
 (** the residual is affine in udot: the udot-dependent part is udot . (M v) *)
 Corollary rnea_affine_in_udot (ud v : X -> list R) (t : tree X) :
   tsum (tmap (fun r => dotU K (snd r) (v (fst (fst (fst r))))) (rnea K A nd dy ud t))
@@ -777,6 +800,30 @@ Proof.
   refine (Forall_impl2 _ _ _ _ _ Hz HL). intros xz Hz1 HL1. cbn [fst snd] in *.
   apply (lsub_zero_eq _ _ (n_H (nd (w_x (fst (fst xz)))))); [|exact Hz1].
   rewrite Htmul_length. symmetry. exact HL1.
+Qed.
+
+(** the other side: M u = f  implies  M^-1 f = u  (with mulM_mulMInv_id: multiplyByMInv is the two-sided inverse of
+    multiplyByM on every tree).  From the uniqueness theorem: without velocities and body forces the inverse-dynamics
+    residual of u is M u - f. *)
+Lemma lsub_self : forall (a : list R) (c : list V), length a = length c -> lsub K A a a = map (fun _ => 0) c.
+Proof. induction a as [|x a IHa]; intros [|z c] E; try discriminate; [reflexivity|]. cbn [lsub map]. f_equal.
+  - unfold ssub. rewrite sadd_is, sneg_is. lra.
+  - apply IHa. cbn in E. lia. Qed.
+Theorem mulMInv_mulM_id (u : X -> list R) (t : tree X) :
+  (forall y, In y (flatten (abi_pass K A nd t)) -> node_ok_l nd dy u y) ->
+  Forall (fun r => snd r = d_f (dy (fst (fst r)))) (flatten (mulM K nd u t)) ->
+  Forall (fun w : WT => w_ud w = u (w_x w)) (flatten (mulMInv K A nd dy t)).
+Proof.
+  intros Hok HM. rewrite mulMInv_is_fd. apply (fd_unique nd dy_f u t).
+  - intros y Hy. exact (Hok y Hy).
+  - unfold rnea, rnea_acc. rewrite flatten_tmap. apply Forall_map. cbn [fst snd].
+    assert (EA : accum K (fun xv : X * V => nd (fst xv)) (rnea_force K A nd dy_f) (kin K nd u (fun x => d_a (dy_f x)) (vzero K) t)
+               = accum K (fun xv : X * V => nd (fst xv)) (fun xv : X * V => mapply K (n_M (nd (fst xv))) (snd xv)) (mulJ K nd u t)).
+    { unfold accum. apply inward_ext. intros xv rs. unfold gather. f_equal.
+      unfold rnea_force. cbn [dy_f d_g d_F]. rewrite vadd_zero_r, vsub_zero_r. reflexivity. }
+    rewrite EA. unfold mulM, mulJt in HM. rewrite flatten_tmap in HM. rewrite Forall_map in HM. cbn [fst snd] in HM.
+    eapply Forall_impl; [|exact HM]. intros xz E. cbn beta in *. cbn [dy_f d_f]. rewrite E.
+    apply lsub_self. rewrite <- E. apply Htmul_length.
 Qed.
 End MINV.
 End Laws.
